@@ -36,6 +36,27 @@ Theorem C07_refines_abstract_queue_partial :
 Proof. exact monitor_sound. Qed.
 Print Assumptions C07_refines_abstract_queue_partial.
 
+(* ---- configurations WITH write handlers, precisely: for EVERY configuration (no hypothesis at all) and every
+   history the monitor without the clause prepare_invokes_handler accepts: all responses of Prepare / Execute Write
+   and all values are as the abstract queue says; the one difference is the handler call the probe makes: *)
+Theorem C07_refines_abstract_queue_with_handlers :
+  forall c ops, monitor_core c (srv_run c (srv_init c) ops) = None.
+Proof. exact monitor_core_sound. Qed.
+Print Assumptions C07_refines_abstract_queue_with_handlers.
+
+(* the permission probe of Prepare Write on a value behind a write handler calls the handler exactly once, with
+   an empty write at offset 0 (one more write, one more empty write in the harness' counters); nothing else
+   changes: no value, no connection data, nothing of the queue *)
+Theorem C07_probe_calls_handler_once :
+  forall c st cid k s ch g cci size hrd blob st' rc,
+    get_conn st cid = Some k -> c_value ch = VHandler size hrd true blob ->
+    security_check (char_requires_encryption c s ch) (encrypted k) (pairing k) = Success ->
+    access_check_write c st cid (AValue s ch g cci) = Some (st', rc) ->
+    rc = Success /\ vals st' = vals st /\ conns st' = conns st /\ wq_owner st' = wq_owner st /\ wq_elems st' = wq_elems st
+    /\ hlogs st' = upd (hlogs st) g (let '(r, w, e) := nth g (hlogs st) (0, 0, 0) in (r, w + 1, e + 1)).
+Proof. exact probe_calls_handler_once. Qed.
+Print Assumptions C07_probe_calls_handler_once.
+
 Theorem C07_no_write_handler_decidable : forall c, no_k2_b c = true -> no_k2 c.
 Proof. exact no_k2_b_sound. Qed.
 Print Assumptions C07_no_write_handler_decidable.
@@ -155,3 +176,9 @@ Example C07_monitor_rejects_handler_call :
   monitor cfg_v_handlers [(OpIn O [22; 3; 0; 0; 0; 1] 23, OBytes [23; 3; 0; 0; 0; 1]); (OpVal O, OValue [1; 12; 23; 34; 45; 56; 67; 78] (Some (0, 1, 1)))]
   = Some (1%nat, t_prepare_invokes_handler).
 Proof. vm_compute. reflexivity. Qed.
+
+Example C07_core_monitor_accepts_handler_trace :                  (* the refuting trace of the full statement passes the core monitor *)
+  monitor_core cfg_v_handlers (srv_run cfg_v_handlers (srv_init cfg_v_handlers) [OpIn O [22; 3; 0; 0; 0; 1] 23; OpVal O; OpIn O [24; 1] 23; OpVal O]) = None
+  /\ map snd (srv_run cfg_v_handlers (srv_init cfg_v_handlers) [OpIn O [22; 3; 0; 0; 0; 1] 23; OpVal O; OpIn O [24; 1] 23; OpVal O])
+     = [OBytes [23; 3; 0; 0; 0; 1]; OValue [1; 12; 23; 34; 45; 56; 67; 78] (Some (0, 1, 1)); OBytes [25]; OValue [1; 12; 23; 34; 45; 56; 67; 78] (Some (0, 2, 1))].
+Proof. split; vm_compute; reflexivity. Qed.
